@@ -410,9 +410,9 @@ func probe(prober *h.Peer, name string) (owner int, unknown bool) {
 func handoverCase(c *h.Case) {
 	rng := c.Rng
 	pfx := fmt.Sprintf("c%d.", c.Idx)
-	variant := []string{"plain", "delayed-del", "simultaneous", "held-teardown", "held-teardown", "cut-before-ack", "dropped-held-teardown"}[rng.Intn(7)]
+	variant := []string{"plain", "delayed-del", "simultaneous", "held-teardown", "held-teardown", "cut-before-ack", "dropped-held-teardown", "inflight-registration"}[rng.Intn(8)]
 	nNames := 1 + rng.Intn(3)
-	withTCP := rng.Intn(2) == 0
+	withTCP := rng.Intn(2) == 0 || variant == "inflight-registration"
 	nSim := 2 + rng.Intn(3)
 	c.Data["variant"], c.Data["names"], c.Data["tcp"], c.Data["simultaneous"] = variant, nNames, withTCP, nSim
 	rmPerturb, trace := h.Perturb(rng, pfx)
@@ -525,6 +525,56 @@ func handoverCase(c *h.Case) {
 			return
 		}
 		survivors = []*h.Peer{p}
+	} else if variant == "inflight-registration" {
+		// The old session has a registration in flight (parked right after the name look-up) when the client logs
+		// in again with its run id. The old connection is closed by the replacement; a user connection to another
+		// proxy of the old session then makes the server WRITE on that dead connection. Whatever fails there, the
+		// old session's teardown must come after its in-flight registration, or that registration completes on a
+		// dead session and holds its name for ever.
+		extra := pfx + "inflight"
+		hold := h.NewGate("server.registerProxy.afterExist", R, 1)
+		defer hold.Release()
+		go func() {
+			_, _ = old.NewProxy(&msg.NewProxy{ProxyName: extra, ProxyType: "stcp", Sk: "k", AllowUsers: []string{"*"}}, 20*time.Second)
+		}()
+		if !hold.WaitArrived(10 * time.Second) {
+			run.Inconclusive("afterExist gate not reached")
+			return
+		}
+		type res struct {
+			p   *h.Peer
+			err error
+		}
+		ch := make(chan res, 1)
+		go func() { p, err := mk("S2", R); ch <- res{p, err} }()
+		time.Sleep(50 * time.Millisecond)
+		for i := 0; i < 3; i++ { // users of the old session's tcp proxy: the server asks the dead connection for work connections
+			if uc, err := net.DialTimeout("tcp", fmt.Sprintf("127.0.0.1:%d", tcpPort), time.Second); err == nil {
+				_, _ = uc.Write([]byte("N000000000000000"))
+				defer uc.Close()
+			}
+		}
+		run.Count("gate_inflight_registration_during_relogin", 1)
+		var got *res
+		select {
+		case r := <-ch:
+			got = &r
+		case <-time.After(400 * time.Millisecond):
+		}
+		if got != nil && got.err == nil && got.p.LoggedIn() {
+			c.Violation("relogin-acknowledged-before-old-teardown", "LoginResp for re-login with run id %s arrived while a registration of the previous session (%s) was still in flight (parked after the name look-up): the previous session cannot have been torn down completely", R, extra)
+		}
+		hold.Release()
+		if got == nil {
+			r := <-ch
+			got = &r
+		}
+		if got.err != nil || !got.p.LoggedIn() {
+			c.Violation("relogin-refused", "re-login with the run id the server handed out was not accepted: %v", got.err)
+			return
+		}
+		survivors = []*h.Peer{got.p}
+		regs = append(regs, &msg.NewProxy{ProxyName: extra, ProxyType: "stcp", Sk: "k", AllowUsers: []string{"*"}})
 	} else if variant == "held-teardown" || variant == "dropped-held-teardown" {
 		// park the old session's teardown right after its dispatcher ended: the new login must not be
 		// acknowledged while the old session still holds its resources. In the "dropped" form the old
